@@ -175,3 +175,343 @@ Proof.
     + right; right; right. exists ro, o, gid, rv. repeat split; try reflexivity; exact Er.
     + left. repeat split; reflexivity.
 Qed.
+
+(* ---------- the scanner's records and the linearization log ---------- *)
+Notation status := (Lin.status regop).
+Notation SIdle := (Lin.Idle regop).
+Notation SPending := (Lin.Pending regop).
+Notation SLinned := (Lin.Linned regop).
+Notation othr := (Lin.o_thr regop ret).
+Notation oop := (Lin.o_op regop ret).
+Notation olin := (Lin.o_lin regop ret).
+Notation oinv := (Lin.o_inv regop ret).
+Notation ores := (Lin.o_res regop ret).
+Notation ORec := (Lin.OpRec regop ret).
+Notation answer := (Lin.answer regop ret).
+Notation hlegal := (Lin.legal regop ret Z reg_apply).
+
+(* a record and the log entry of the same operation *)
+Definition Rm (a : oprec) (e : lentry) : Prop :=
+  othr a = le_t e /\ oop a = le_op e /\ forall p r, ores a = Some (p, r) -> r = le_ret e.
+Fixpoint hd_rec (t : nat) (acc : list oprec) : option oprec :=
+  match acc with [] => None | a :: r => if Nat.eqb (othr a) t then Some a else hd_rec t r end.
+Definition answered (a : oprec) (p : nat) (r : ret) : oprec := ORec (othr a) (oop a) (oinv a) (olin a) (Some (p, r)).
+
+Lemma match_split t acc lg a : Forall2 Rm acc lg -> hd_rec t acc = Some a ->
+  exists pre post pre' e post', acc = pre ++ a :: post /\ lg = pre' ++ e :: post' /\
+    Forall2 Rm pre pre' /\ Rm a e /\ Forall2 Rm post post' /\
+    (forall b, In b pre -> othr b <> t) /\ othr a = t /\ head_of t lg = Some e.
+Proof.
+  induction 1 as [|x y acc lg Hxy HF IH]; cbn [hd_rec head_of]; [discriminate|].
+  destruct (Nat.eqb_spec (othr x) t) as [Et|Hne].
+  - intros E. inversion E; subst a. exists [], acc, [], y, lg. cbn [app].
+    split; [reflexivity|]. split; [reflexivity|]. split; [constructor|]. split; [exact Hxy|]. split; [exact HF|].
+    split; [intros b []|]. split; [exact Et|].
+    destruct Hxy as [Ht _]. rewrite <- Ht, Et, Nat.eqb_refl. reflexivity.
+  - intros E. destruct (IH E) as (pre & post & pre' & e & post' & -> & -> & F1 & Ra & F2 & Hp & Ha & Hh).
+    exists (x :: pre), post, (y :: pre'), e, post'. cbn [app].
+    split; [reflexivity|]. split; [reflexivity|]. split; [constructor; assumption|]. split; [exact Ra|]. split; [exact F2|].
+    split; [intros b [<-|Hb]; auto|]. split; [exact Ha|].
+    destruct Hxy as [Ht _]. rewrite <- Ht. destruct (Nat.eqb_spec (othr x) t); [contradiction|exact Hh].
+Qed.
+Lemma answer_split t p r pre a post : (forall b, In b pre -> othr b <> t) -> othr a = t -> ores a = None ->
+  answer t p r (pre ++ a :: post) = pre ++ answered a p r :: post.
+Proof.
+  intros Hp Ha Hr. induction pre as [|x pre IH]; cbn [app Lin.answer].
+  - rewrite Ha, Nat.eqb_refl, Hr. cbn [andb]. unfold answered. rewrite Ha. reflexivity.
+  - destruct (Nat.eqb_spec (othr x) t) as [E|E]; [exfalso; apply (Hp x); [left; reflexivity|exact E]|].
+    cbn [andb]. rewrite IH; [reflexivity|]. intros b Hb. apply Hp. right. exact Hb.
+Qed.
+Lemma hd_rec_app t pre rest : (forall b, In b pre -> othr b <> t) -> hd_rec t (pre ++ rest) = hd_rec t rest.
+Proof.
+  intros Hp. induction pre as [|x pre IH]; [reflexivity|]. cbn [app hd_rec].
+  destruct (Nat.eqb_spec (othr x) t) as [E|E]; [exfalso; apply (Hp x); [left; reflexivity|exact E]|].
+  apply IH. intros b Hb. apply Hp. right. exact Hb.
+Qed.
+Lemma hd_rec_in t acc a : hd_rec t acc = Some a -> In a acc /\ othr a = t.
+Proof.
+  induction acc as [|x acc IH]; cbn [hd_rec]; [discriminate|].
+  destruct (Nat.eqb_spec (othr x) t) as [Heq|Hne].
+  - intros H. injection H as <-. split; [left; reflexivity|exact Heq].
+  - intros H. destruct (IH H). split; [right; assumption|assumption].
+Qed.
+(* replacing a record by one of the same thread does not change who is first of another thread *)
+Lemma hd_rec_replace u pre a a' post : othr a' = othr a -> othr a <> u ->
+  hd_rec u (pre ++ a' :: post) = hd_rec u (pre ++ a :: post).
+Proof.
+  intros E Hne. induction pre as [|x pre IH]; cbn [app hd_rec].
+  - rewrite E. destruct (Nat.eqb_spec (othr a) u); [contradiction|reflexivity].
+  - destruct (Nat.eqb (othr x) u); [reflexivity|exact IH].
+Qed.
+
+(* legality of the scanner's list from the legality of the log *)
+Fixpoint lfinal (s : Z) (L : list oprec) : Z :=
+  match L with [] => s | a :: rest => lfinal (fst (reg_apply s (oop a))) rest end.
+Lemma hlegal_app s L1 L2 : hlegal s (L1 ++ L2) <-> hlegal s L1 /\ hlegal (lfinal s L1) L2.
+Proof.
+  revert s. induction L1 as [|a L1 IH]; intros s; cbn [app Lin.legal lfinal]; [tauto|].
+  destruct (reg_apply s (oop a)) as [s' r]. cbn [fst]. rewrite IH. tauto.
+Qed.
+Lemma lfinal_app s L1 L2 : lfinal s (L1 ++ L2) = lfinal (lfinal s L1) L2.
+Proof. revert s. induction L1 as [|a L1 IH]; intros s; cbn [app lfinal]; [reflexivity|apply IH]. Qed.
+Lemma legal_transfer x0 acc lg : Forall2 Rm acc lg -> forall x, legal x0 lg x ->
+  hlegal x0 (rev acc) /\ lfinal x0 (rev acc) = x.
+Proof.
+  induction 1 as [|a e acc lg Hae HF IH]; intros x HL.
+  - inversion HL; subst. cbn. auto.
+  - inversion HL as [|e0 lg0 y x' Hy Hr]; subst. destruct (IH y Hy) as [A B].
+    cbn [rev]. rewrite hlegal_app, lfinal_app, B. cbn [Lin.legal lfinal].
+    destruct Hae as [_ [Eo Hres]]. rewrite Eo, Hr. cbn [fst]. repeat split; auto.
+    destruct (ores a) as [[p r]|] eqn:Er; [apply (Hres p r eq_refl)|exact I].
+Qed.
+Lemma legal_entry x0 lg x e : legal x0 lg x -> In e lg -> exists y y', reg_apply y (le_op e) = (y', le_ret e).
+Proof.
+  induction 1 as [|e0 lg y x' Hy IH Hr]; intros Hin; [destruct Hin|].
+  destruct Hin as [<-|Hin]; [eauto|auto].
+Qed.
+Lemma head_of_in t lg e : head_of t lg = Some e -> In e lg.
+Proof.
+  induction lg as [|x lg IH]; cbn [head_of]; [discriminate|].
+  destruct (Nat.eqb (le_t x) t); [intros H; inversion H; left; reflexivity|intros H; right; auto].
+Qed.
+
+(* ---------- the invariant between the scanner's state and the model's state ---------- *)
+Definition stat_ok (x : status) (p : phase) : Prop :=
+  match x, p with
+  | Lin.Idle _, NoOp => True
+  | Lin.Pending _ o _, Pre ro => o = ro
+  | Lin.Linned _ o _ _, Post ro => o = ro
+  | _, _ => False
+  end.
+Fixpoint desc (l : list nat) : Prop :=
+  match l with [] => True | x :: r => (forall y, In y r -> (y < x)%nat) /\ desc r end.
+
+Record Rel (ls : list loc) (lg : list lentry) (n : nat) (st : nat -> status) (acc : list oprec) : Prop := {
+  R_stat : forall t, stat_ok (st t) (opphase (locof ls t));
+  R_match : Forall2 Rm acc lg;
+  R_open : forall a, In a acc -> ores a = None ->
+           hd_rec (othr a) acc = Some a /\ exists ro, opphase (locof ls (othr a)) = Post ro;
+  R_post : forall t ro, opphase (locof ls t) = Post ro -> exists a, hd_rec t acc = Some a /\ ores a = None;
+  R_bound : forall a, In a acc -> (olin a < n)%nat;
+  R_desc : desc (map olin acc)
+}.
+
+Lemma phase_upd ls t l l' u : nth_error ls t = Some l ->
+  opphase (locof (upd ls t l') u) = if Nat.eqb u t then opphase l' else opphase (locof ls u).
+Proof. intros Hl. rewrite (locof_upd _ _ _ _ _ Hl). destruct (Nat.eqb u t); reflexivity. Qed.
+
+Lemma rel_step ls lg n st acc t g l l' :
+  Rel ls lg n st acc -> nth_error ls t = Some l -> step_kind t (g, lg) l l' ->
+  (forall ro o gid rv, at_ l = GRel o gid rv false -> regop_of o = Some ro ->
+     exists e, head_of t lg = Some e /\ decode ro rv = le_ret e) ->
+  exists n' st' acc',
+    (forall H, Lin.scan_from regop ret n (hev_of t (g, lg) l l' ++ H) st acc = Lin.scan_from regop ret n' H st' acc') /\
+    Rel (upd ls t l') (newlog t g l lg) n' st' acc'.
+Proof.
+  intros [Rs Rmt Ro Rp Rb Rd] Hl Hk Hret. unfold step_kind in Hk. cbn [fst] in Hk.
+  pose proof (Rs t) as Rst. rewrite (locof_at _ _ _ Hl) in Rst.
+  destruct Hk as [[He [Hph Hlin]]|[[ro [He [Hp0 [Hp1 Hlin]]]]|[[ro [e [He [Hp0 [Hp1 [Hlin Hop]]]]]]|[ro [o [gid [rv [He [Hp0 [Hp1 [Hlin [Hat Hro]]]]]]]]]]]];
+    rewrite He; unfold newlog; rewrite Hlin; cbn [app].
+  - (* nothing for the history *)
+    exists n, st, acc. split; [reflexivity|]. constructor; auto.
+    + intros u. rewrite (phase_upd _ _ _ _ _ Hl). destruct (Nat.eqb_spec u t) as [->|Hne]; [rewrite Hph; exact Rst|apply Rs].
+    + intros a Ha Hr. destruct (Ro a Ha Hr) as [A [ro B]]. split; [exact A|]. exists ro.
+      rewrite (phase_upd _ _ _ _ _ Hl). destruct (Nat.eqb_spec (othr a) t) as [Et|Hne]; [|exact B].
+      rewrite Hph. rewrite Et, (locof_at _ _ _ Hl) in B. exact B.
+    + intros u ro. rewrite (phase_upd _ _ _ _ _ Hl). destruct (Nat.eqb_spec u t) as [->|Hne]; [|apply Rp].
+      rewrite Hph. intros B. apply (Rp t ro). rewrite (locof_at _ _ _ Hl). exact B.
+  - (* invocation *)
+    rewrite Hp0 in Rst. destruct (st t) eqn:Est; cbn in Rst; try contradiction.
+    exists (S n), (Lin.supd regop st t (SPending ro n)), acc. split; [intros H; cbn [Lin.scan_from]; rewrite Est; reflexivity|].
+    constructor; auto.
+    + intros u. rewrite (phase_upd _ _ _ _ _ Hl). unfold Lin.supd. destruct (Nat.eqb_spec u t) as [->|Hne]; [rewrite Hp1; reflexivity|apply Rs].
+    + intros a Ha Hr. destruct (Ro a Ha Hr) as [A [ro' B]]. split; [exact A|]. exists ro'.
+      rewrite (phase_upd _ _ _ _ _ Hl). destruct (Nat.eqb_spec (othr a) t) as [Et|Hne]; [|exact B].
+      rewrite Et, (locof_at _ _ _ Hl), Hp0 in B. discriminate.
+    + intros u ro'. rewrite (phase_upd _ _ _ _ _ Hl). destruct (Nat.eqb_spec u t) as [->|Hne]; [rewrite Hp1; discriminate|apply Rp].
+    + intros a Ha. specialize (Rb a Ha). lia.
+  - (* the logging step *)
+    rewrite Hp0 in Rst. destruct (st t) as [|o i|] eqn:Est; cbn in Rst; try contradiction. subst o.
+    exists (S n), (Lin.supd regop st t (SLinned ro i n)), (ORec t ro i n None :: acc).
+    split; [intros H; cbn [Lin.scan_from]; rewrite Est; reflexivity|].
+    assert (Hold : forall a, In a acc -> ores a = None -> othr a <> t).
+    { intros a Ha Hr Et. destruct (Ro a Ha Hr) as [_ [ro' B]]. rewrite Et, (locof_at _ _ _ Hl), Hp0 in B. discriminate. }
+    constructor.
+    + intros u. rewrite (phase_upd _ _ _ _ _ Hl). unfold Lin.supd. destruct (Nat.eqb_spec u t) as [->|Hne]; [rewrite Hp1; reflexivity|apply Rs].
+    + constructor; [|exact Rmt]. split; [cbn; symmetry; eapply lin_of_tid; eauto|]. split; [cbn; congruence|]. cbn. discriminate.
+    + intros a [<-|Ha] Hr.
+      * cbn [Lin.o_thr hd_rec]. rewrite Nat.eqb_refl. split; [reflexivity|]. exists ro.
+        rewrite (phase_upd _ _ _ _ _ Hl), Nat.eqb_refl. exact Hp1.
+      * pose proof (Hold a Ha Hr) as Hne. destruct (Ro a Ha Hr) as [A [ro' B]]. split.
+        -- cbn [hd_rec Lin.o_thr]. destruct (Nat.eqb_spec t (othr a)); [congruence|exact A].
+        -- exists ro'. rewrite (phase_upd _ _ _ _ _ Hl). destruct (Nat.eqb_spec (othr a) t); [contradiction|exact B].
+    + intros u ro'. rewrite (phase_upd _ _ _ _ _ Hl). destruct (Nat.eqb_spec u t) as [->|Hne].
+      * intros _. eexists. cbn [hd_rec Lin.o_thr]. rewrite Nat.eqb_refl. split; reflexivity.
+      * intros B. destruct (Rp u ro' B) as [a [A1 A2]]. exists a. split; [|exact A2].
+        cbn [hd_rec Lin.o_thr]. destruct (Nat.eqb_spec t u); [congruence|exact A1].
+    + intros a [<-|Ha]; [cbn; lia|specialize (Rb a Ha); lia].
+    + cbn [map desc Lin.o_lin]. split; [|exact Rd]. intros y Hy. apply in_map_iff in Hy. destruct Hy as [b [<- Hb]]. apply Rb. exact Hb.
+  - (* return *)
+    rewrite Hp0 in Rst. destruct (st t) as [| |o0 i k] eqn:Est; cbn in Rst; try contradiction. subst o0.
+    destruct (Rp t ro) as [a [Hhd Hun]]; [rewrite (locof_at _ _ _ Hl); exact Hp0|].
+    destruct (match_split t acc lg a Rmt Hhd) as (pre & post & pre' & e & post' & Eacc & Elg & F1 & Ra & F2 & Hpre & Hat' & Hhead).
+    destruct (Hret ro o gid rv Hat Hro) as [e' [Hh' Hdec]]. assert (e' = e) by congruence. subst e'.
+    exists (S n), (Lin.supd regop st t SIdle), (pre ++ answered a n (decode ro rv) :: post).
+    split; [intros H; cbn [Lin.scan_from]; rewrite Est, Eacc, (answer_split t n _ pre a post Hpre Hat' Hun); reflexivity|].
+    assert (Hdup : forall b, In b post -> b <> a).
+    { intros b Hb ->. rewrite Eacc, map_app in Rd. cbn [map] in Rd. clear -Rd Hb.
+      induction pre as [|x pre IH]; cbn in Rd; [|apply IH; tauto].
+      destruct Rd as [Hlt _]. specialize (Hlt (olin a) (in_map olin _ _ Hb)). lia. }
+    assert (Hother : forall b, In b (pre ++ answered a n (decode ro rv) :: post) -> ores b = None ->
+              In b acc /\ othr b <> t).
+    { intros b Hb Hr. apply in_app_or in Hb. destruct Hb as [Hb|[<-|Hb]]; [| discriminate |].
+      - split; [rewrite Eacc; apply in_or_app; left; exact Hb|apply Hpre; exact Hb].
+      - assert (In b acc) as Hin by (rewrite Eacc; apply in_or_app; right; right; exact Hb).
+        split; [exact Hin|]. intros Et. destruct (Ro b Hin Hr) as [A _]. rewrite Et, Hhd in A. inversion A; subst.
+        apply (Hdup b Hb); reflexivity. }
+    constructor.
+    + intros u. rewrite (phase_upd _ _ _ _ _ Hl). unfold Lin.supd. destruct (Nat.eqb_spec u t) as [->|Hne]; [rewrite Hp1; exact I|apply Rs].
+    + rewrite Elg. apply Forall2_app; [exact F1|]. constructor; [|exact F2].
+      destruct Ra as [R1 [R2 _]]. split; [exact R1|]. split; [exact R2|]. cbn. intros p r E0. inversion E0; subst. exact Hdec.
+    + intros b Hb Hr. destruct (Hother b Hb Hr) as [Hin Hne]. destruct (Ro b Hin Hr) as [A [ro' B]]. split.
+      * rewrite hd_rec_replace with (a := a); [rewrite <- Eacc; exact A|reflexivity|congruence].
+      * exists ro'. rewrite (phase_upd _ _ _ _ _ Hl). destruct (Nat.eqb_spec (othr b) t); [contradiction|exact B].
+    + intros u ro'. rewrite (phase_upd _ _ _ _ _ Hl). destruct (Nat.eqb_spec u t) as [->|Hne]; [rewrite Hp1; discriminate|].
+      intros B. destruct (Rp u ro' B) as [b [B1 B2]]. exists b. split; [|exact B2].
+      rewrite hd_rec_replace with (a := a); [rewrite <- Eacc; exact B1|reflexivity|congruence].
+    + intros b Hb. assert (olin b < n)%nat; [|lia]. apply in_app_or in Hb. destruct Hb as [Hb|[<-|Hb]].
+      * apply Rb. rewrite Eacc. apply in_or_app. left. exact Hb.
+      * cbn. apply Rb. rewrite Eacc. apply in_or_app. right. left. reflexivity.
+      * apply Rb. rewrite Eacc. apply in_or_app. right. right. exact Hb.
+    + rewrite Eacc in Rd. rewrite map_app in *. cbn [map] in *. exact Rd.
+Qed.
+
+(* ---------- along a logged run ---------- *)
+Lemma lstep_inv cf t c (G : lglob) l G' l' es : plain cf = false -> ltstep cf t c G l = Some (G', l', es) ->
+  tstep0 cf t c (fst G) l = Some (fst G', l', es) /\ snd G' = newlog t (fst G) l (snd G).
+Proof.
+  intros Hpl Hs. unfold ltstep in Hs. rewrite (tstep_instr _ _ _ _ _ Hpl) in Hs.
+  destruct (tstep0 cf t c (fst G) l) as [[[g1 l1] es1]|]; [|discriminate]. inversion Hs; subst. cbn [fst snd]. auto.
+Qed.
+
+Lemma RL_tidy cf progs s : plain cf = false -> throws cf = [] -> reg_clients progs -> RL cf progs s ->
+  forall u l, nth_error (thr s) u = Some l -> tidy l.
+Proof.
+  intros Hpl Hth Hrc HR.
+  refine (reachable_inv lglob loc (ltstep cf) (fun _ ls => forall u l, nth_error ls u = Some l -> tidy l) _ _ _ _ HR).
+  - intros G ls t c l G' l' es Hall Hl Hs u lu Hu.
+    destruct (nth_upd _ _ _ _ _ Hu) as [[-> [-> _]]|[_ Hu']]; [|eauto].
+    destruct (lstep_inv _ _ _ _ _ _ _ _ Hpl Hs) as [Hs0 _]. eapply tidy_step; eauto.
+  - intros u l Hu. unfold linit, init in Hu. cbn [thr] in Hu. rewrite nth_error_map in Hu.
+    destruct (nth_error progs u) as [p|] eqn:Ep; cbn in Hu; [|discriminate]. injection Hu as <-.
+    split; cbn [prog at_]; [apply Hrc; eapply nth_error_In; eauto|exact I].
+Qed.
+
+Lemma lstep_mono cf t c (G : lglob) l G' l' es : plain cf = false -> ltstep cf t c G l = Some (G', l', es) ->
+  (misuse (fst G) <= misuse (fst G'))%nat /\ (incrs (fst G) <= incrs (fst G'))%nat.
+Proof. intros Hpl Hs. destruct (lstep_inv _ _ _ _ _ _ _ _ Hpl Hs) as [Hs0 _]. eapply tstep_mono; eauto. Qed.
+Lemma lrun_mono cf sched : plain cf = false -> forall s : sys lglob loc,
+  (misuse (fst (gl s)) <= misuse (fst (gl (run lglob loc (ltstep cf) s sched))))%nat /\
+  (incrs (fst (gl s)) <= incrs (fst (gl (run lglob loc (ltstep cf) s sched))))%nat.
+Proof.
+  intros Hpl. induction sched as [|[t c] r IH]; intros s; cbn [run fold_left]; [lia|].
+  specialize (IH (step lglob loc (ltstep cf) s (t, c))). unfold run in IH.
+  assert ((misuse (fst (gl s)) <= misuse (fst (gl (step lglob loc (ltstep cf) s (t, c)))))%nat /\
+          (incrs (fst (gl s)) <= incrs (fst (gl (step lglob loc (ltstep cf) s (t, c)))))%nat) as [A B]; [|lia].
+  unfold step, sys_step. destruct (nth_error (thr s) t) as [l|]; [|cbn; lia].
+  destruct (ltstep cf t c (gl s) l) as [[[G' l'] es]|] eqn:E; [|cbn; lia]. cbn [fst gl].
+  eapply lstep_mono; eauto.
+Qed.
+
+Lemma scan_run cf progs : plain cf = false -> throws cf = [] -> reg_clients progs ->
+  forall sched (s : sys lglob loc) n st acc,
+  RL cf progs s ->
+  safe cf (fst (gl (run lglob loc (ltstep cf) s sched))) ->
+  incrs (fst (gl (run lglob loc (ltstep cf) s sched))) = 0%nat ->
+  Rel (thr s) (llog s) n st acc ->
+  exists L, Lin.scan_from regop ret n (hist_from cf s sched) st acc = Some L /\ hlegal (init_val cf) L.
+Proof.
+  intros Hpl Hth Hrc. induction sched as [|[t c] r IH]; intros s n st acc HR Hsafe Hinc HRel.
+  - cbn [hist_from Lin.scan_from run fold_left] in *. exists (rev acc). split; [reflexivity|].
+    destruct (RL_inv _ _ _ Hpl HR) as [_ _ HLg].
+    apply (legal_transfer _ _ _ (R_match _ _ _ _ _ HRel) _ (HLg Hsafe Hinc)).
+  - destruct (lrun_mono cf ((t, c) :: r) Hpl s) as [Hm Hi].
+    assert (Hsafe0 : safe cf (fst (gl s))) by (destruct Hsafe as [A B]; split; [exact A|lia]).
+    assert (Hinc0 : incrs (fst (gl s)) = 0%nat) by lia.
+    cbn [run fold_left] in Hsafe, Hinc.
+    fold (run lglob loc (ltstep cf) (step lglob loc (ltstep cf) s (t, c)) r) in Hsafe, Hinc.
+    pose proof (reachable_step lglob loc (ltstep cf) _ _ (t, c) HR) as HR'.
+    unfold step, sys_step in Hsafe, Hinc, HR'. cbn [hist_from].
+    destruct (nth_error (thr s) t) as [l|] eqn:El; [|cbn [fst] in *; eapply IH; eauto].
+    destruct (ltstep cf t c (gl s) l) as [[[G' l'] es]|] eqn:Es; [|cbn [fst] in *; eapply IH; eauto].
+    cbn [fst] in Hsafe, Hinc, HR'.
+    destruct (lstep_inv _ _ _ _ _ _ _ _ Hpl Es) as [Hs0 Hlog].
+    destruct (RL_inv _ _ _ Hpl HR) as [[H1 H2] Hsh HLg].
+    assert (Hk : step_kind t (fst (gl s), snd (gl s)) l l').
+    { apply (phase_step cf t c (fst (gl s)) (snd (gl s)) l (fst G') l' es Hpl Hth).
+      - eapply I_ok; eauto.
+      - apply (Hsh Hsafe0 t l El).
+      - apply (RL_tidy cf progs s Hpl Hth Hrc HR t l El).
+      - exact Hs0. }
+    assert (Hret : forall ro o gid rv, at_ l = GRel o gid rv false -> regop_of o = Some ro ->
+              exists e, head_of t (snd (gl s)) = Some e /\ decode ro rv = le_ret e).
+    { intros ro o gid rv Hat Hro. pose proof (Hsh Hsafe0 t l El) as S0. unfold shape in S0. rewrite Hat, Hro in S0.
+      destruct S0 as [e [Hh [_ [Hop Hrc']]]]. exists e. split; [exact Hh|].
+      destruct (legal_entry _ _ _ e (HLg Hsafe0 Hinc0) (head_of_in _ _ _ Hh)) as [y [y' Hy]].
+      rewrite Hop in Hy. rewrite <- Hrc'. eapply decode_correct; eauto. }
+    destruct (rel_step _ _ _ _ _ t (fst (gl s)) l l' HRel El Hk Hret) as [n' [st' [acc' [Hscan HRel']]]].
+    replace (gl s) with (fst (gl s), snd (gl s)) at 1 by (destruct (gl s); reflexivity).
+    rewrite Hscan.
+    apply (IH (Sys G' (upd (thr s) t l')) n' st' acc'); auto.
+    cbn [thr]. unfold llog. cbn [gl]. rewrite Hlog. exact HRel'.
+Qed.
+
+Lemma Rel_init cf progs : Rel (thr (linit cf progs)) (llog (linit cf progs)) 0 (fun _ => SIdle) [].
+Proof.
+  assert (P : forall u, opphase (locof (thr (linit cf progs)) u) = NoOp).
+  { intros u. unfold locof, linit, init. cbn [thr]. rewrite nth_error_map. destruct (nth_error progs u); reflexivity. }
+  constructor; cbn.
+  - intros t. rewrite P. exact I.
+  - constructor.
+  - intros a [].
+  - intros t ro. rewrite P. discriminate.
+  - intros a [].
+  - exact I.
+Qed.
+
+(* the history of every run of register clients is well formed - per thread: invocation, exactly one logging step,
+   return - and the linearization scan computes from it is a legal sequential run of reg_apply from the initial
+   value in which every completed operation has the result it returned.
+   Hypotheses: instrumented payload kind; empty throw plan (an operation that throws before its logging step
+   would leave an Inv without Lin / Res; with the empty plan no operation ends in K_CATCH); the clients modify the
+   wrapped object only through the register operations (no write / incr through a handle, no modify - reads
+   through handles and read functors are allowed and emit nothing), so no read-increment-write completes
+   (incrs = 0); locking enabled, no use of moved-from handles. *)
+Theorem reg_hist_wf cf progs sched :
+  plain cf = false -> throws cf = [] -> reg_clients progs ->
+  safe cf (gl (run glob loc (tstep cf) (init cf progs) sched)) ->
+  incrs (gl (run glob loc (tstep cf) (init cf progs) sched)) = 0%nat ->
+  exists L, Lin.scan regop ret (hist_of cf progs sched) = Some L /\ hlegal (init_val cf) L.
+Proof.
+  intros Hpl Hth Hrc Hsafe Hinc.
+  pose proof (proj_run cf sched (linit cf progs)) as Hp.
+  assert (Hg : fst (gl (run lglob loc (ltstep cf) (linit cf progs) sched)) = gl (run glob loc (tstep cf) (init cf progs) sched)).
+  { change (init cf progs) with (proj (linit cf progs)). rewrite <- Hp. reflexivity. }
+  unfold Lin.scan, hist_of. apply (scan_run cf progs Hpl Hth Hrc sched (linit cf progs)).
+  - apply reachable_refl.
+  - rewrite Hg. exact Hsafe.
+  - rewrite Hg. exact Hinc.
+  - apply Rel_init.
+Qed.
+
+(* Herlihy & Wing: every history of register clients is linearizable w.r.t. reg_apply *)
+Corollary reg_linearizable_hw cf progs sched :
+  plain cf = false -> throws cf = [] -> reg_clients progs ->
+  safe cf (gl (run glob loc (tstep cf) (init cf progs) sched)) ->
+  incrs (gl (run glob loc (tstep cf) (init cf progs) sched)) = 0%nat ->
+  Lin.linearizable regop ret Z reg_apply (init_val cf) (hist_of cf progs sched).
+Proof.
+  intros Hpl Hth Hrc Hs Hi. destruct (reg_hist_wf cf progs sched Hpl Hth Hrc Hs Hi) as [L [H1 H2]].
+  eapply Lin.lin_points_linearizable; eauto.
+Qed.
+
